@@ -407,6 +407,12 @@ func (st *Runtime) executeYieldBlock(block *BlockNode, blockParam, yieldParam *B
 		st.content = func(st *Runtime, expression Expression) {
 			outscope := st.scope
 			outcontent := st.content
+			// put back also when the content fails: the lists of the block that are still open release their scopes
+			// (relative to st.scope) while the failure unwinds through them
+			defer func() {
+				st.scope = outscope
+				st.content = outcontent
+			}()
 
 			st.scope = myscope
 			st.content = mycontent
@@ -419,9 +425,6 @@ func (st *Runtime) executeYieldBlock(block *BlockNode, blockParam, yieldParam *B
 			} else {
 				st.executeList(content)
 			}
-
-			st.scope = outscope
-			st.content = outcontent
 		}
 	}
 
@@ -1538,7 +1541,7 @@ func checkEquality(v1, v2 reflect.Value) bool {
 		return v1.String() == v2.String()
 	case reflect.Array:
 		vlen := v1.Len()
-		if vlen == v2.Len() {
+		if vlen != v2.Len() {
 			return false
 		}
 		for i := 0; i < vlen; i++ {
@@ -1602,8 +1605,15 @@ func checkEquality(v1, v2 reflect.Value) bool {
 		return true
 	case reflect.Func:
 		return v1.IsNil() && v2.IsNil()
+	case reflect.Complex64, reflect.Complex128:
+		return (v2.Kind() == reflect.Complex64 || v2.Kind() == reflect.Complex128) && v1.Complex() == v2.Complex()
+	case reflect.Chan, reflect.UnsafePointer:
+		return v2.Kind() == kind && v1.Pointer() == v2.Pointer()
 	default:
-		// Normal equality suffices
+		// Normal equality suffices (where the values can be taken out: not from unexported struct fields)
+		if !v1.CanInterface() || !v2.CanInterface() {
+			return false
+		}
 		return v1.Interface() == v2.Interface()
 	}
 }
